@@ -1,6 +1,6 @@
 (* C10 -- the statements of Properties_C10.v as lemmas: reachable states, serialisation trace, refutations, examples. *)
 From Coq Require Import NArith Arith Bool List Lia.
-From CppUVerif Require Import C10_Wiring gen.Gen_C10 C10_Model C10_Steps C10_Lock C10_Data C10_Sched C10_Proofs C10_Main.
+From CppUVerif Require Import C10_Wiring gen.Gen_C10 C10_Model C10_Steps C10_Lock C10_Data C10_Sched C10_Proofs C10_Main C10_Compose.
 Import ListNotations.
 
 (* the configuration of the code as it is: regenerated wiring, repaired reporter *)
@@ -19,7 +19,7 @@ Proof. intros. apply lockinv_exec. apply the_cfg_lock. reflexivity. apply lockin
 Lemma reached_datainv : forall s sched, valid s = true -> DataInv (sc_scripts s) (reached s sched).
 Proof.
   intros s sched Hv.
-  apply (both_exec (the_cfg s) (the_cfg_good s) eq_refl (sc_scripts s) sched (init_state s) (lockinv_init s) (datainv_init s Hv)).
+  apply (both_exec (the_cfg s) (the_cfg_good s) eq_refl (sc_scripts s) sched (init_state s) (lockinv_init s) (datainv_init s (valid_first s Hv))).
 Qed.
 
 (* ---------------- mutual exclusion; what a thread has read is still the shared state when it writes *)
@@ -55,11 +55,6 @@ Qed.
 Lemma completes : forall s sched, all_done (complete (the_cfg s) (reached s sched)) = true.
 Proof. intros. apply (complete_done (the_cfg s) (the_cfg_lock s) eq_refl _ (reached_lockinv s sched)). Qed.
 
-(* ---------------- schedule independence *)
-Lemma schedule_independent : forall s sched, valid s = true ->
-  spec s (completed_obs (the_cfg s) s sched) = true.
-Proof. intros s sched Hv. apply (every_schedule_meets_spec (the_cfg s) ts_wiring_ok eq_refl s sched Hv). Qed.
-
 (* ---------------- occupancy of the locked region over a whole execution (the schedule, then the run to the end) *)
 Lemma region_occupancy : forall s sched,
   occupancy (reached s sched) <= 1 /\ run_peak (the_cfg s) sched (init_state s) <= 1.
@@ -85,24 +80,6 @@ Lemma list_bool_eqb_eq : forall a b, list_bool_eqb a b = true -> a = b.
 Proof.
   induction a; destruct b; simpl; intros H; try discriminate; auto.
   apply andb_true_iff in H. destruct H as (H1 & H2). apply Bool.eqb_prop in H1. f_equal; auto.
-Qed.
-
-(* two schedules of one scenario: same verdicts, same number of allocations, same outstanding set *)
-Lemma two_schedules : forall s sched1 sched2, valid s = true ->
-  let o1 := completed_obs (the_cfg s) s sched1 in
-  let o2 := completed_obs (the_cfg s) s sched2 in
-  o_verdicts o1 = o_verdicts o2 /\ o_adv o1 = o_adv o2 /\ incl (o_entries o1) (o_entries o2) /\ incl (o_entries o2) (o_entries o1).
-Proof.
-  intros s sched1 sched2 Hv o1 o2.
-  pose proof (schedule_independent s sched1 Hv) as S1. pose proof (schedule_independent s sched2 Hv) as S2.
-  fold o1 in S1. fold o2 in S2. unfold spec, same_set in S1, S2.
-  repeat (apply andb_true_iff in S1; destruct S1 as (S1 & ?)).
-  repeat (apply andb_true_iff in S2; destruct S2 as (S2 & ?)).
-  repeat match goal with H : _ && _ = true |- _ => apply andb_true_iff in H; destruct H end.
-  repeat match goal with H : list_bool_eqb _ _ = true |- _ => apply list_bool_eqb_eq in H end.
-  repeat match goal with H : N.eqb _ _ = true |- _ => apply N.eqb_eq in H end.
-  repeat match goal with H : forallb _ _ = true |- _ => apply (incl_b_incl _ _) in H end.
-  split; [congruence|]. split; [congruence|]. split; eapply incl_tran; eauto.
 Qed.
 
 (* ---------------- sequence numbers *)
@@ -171,7 +148,8 @@ Definition ex_scenario : scenario :=
   {| sc_outalloc := true;
      sc_scripts := [ [OAlloc 0 4 ENewArr; OOverrun 0; OFree 0 EDeleteArr; OAlloc 1 4 ENew; OBoundary; OAlloc 2 8 EMalloc];
                      [OAlloc 0 16 EMalloc; ORealloc 0 64; OAlloc 1 8 ENew] ];
-     sc_sched := [0; 1; 0; 1; 1; 0; 0; 1; 1; 0; 1; 0; 0; 1; 0; 1; 1; 1; 0; 0; 1] |}.
+     sc_sched := [0; 1; 0; 1; 1; 0; 0; 1; 1; 0; 1; 0; 0; 1; 0; 1; 1; 1; 0; 0; 1];
+     sc_more := [] |}.
 
 Lemma ex_valid : valid ex_scenario = true.
 Proof. vm_compute. reflexivity. Qed.
@@ -197,7 +175,8 @@ Definition unlock_one (e : entry) (tb : wtable) : wtable :=
 Definition race_scenario : scenario :=
   {| sc_outalloc := false;
      sc_scripts := [ [OAlloc 0 8 EMalloc]; [OAlloc 0 8 EMalloc] ];
-     sc_sched := [0; 1; 0; 1] |}.
+     sc_sched := [0; 1; 0; 1];
+     sc_more := [] |}.
 Definition lock_not_needed_stmt : Prop :=
   forall e s, valid s = true -> spec s (run_with (unlock_one e ts_table) true s) = true.
 Lemma lock_needed : ~ lock_not_needed_stmt.
